@@ -169,6 +169,12 @@ func drain(cap int) []string {
 // exhaustive: every history over the alphabet up to maxLen, each followed by the battery and a drain.
 func exhaustive(w *tr.W, cap int, alphabet []string, maxLen int, ords []string, keys, vals []int) {
 	tail := append(battery(cap, keys, vals), drain(cap)...)
+	for _, k := range keys { // nothing may be found after the drain
+		tail = append(tail, fmt.Sprintf("K %d", k))
+	}
+	for _, v := range vals {
+		tail = append(tail, fmt.Sprintf("W %d", v))
+	}
 	var rec func(prefix []string)
 	rec = func(prefix []string) {
 		ops := append(append([]string{}, prefix...), tail...)
